@@ -87,6 +87,7 @@ type World struct {
 	sizes              types.Sizes
 	TargetPrefix       string          // import-path prefix of the code under test
 	InitStd            map[string]bool // non-target packages whose init is executed (best effort)
+	Stubs              map[string]string // function name -> "noop" (contract stubs declared by the spec)
 	Trace              bool
 
 	extCache sync.Map // *ssa.Function -> externalFn (or nil)
@@ -133,6 +134,30 @@ func (w *World) external(fn *ssa.Function) externalFn {
 		// generic instantiations: match on the origin's name
 		if o := fn.Origin(); o != nil {
 			ext = externals[o.String()]
+		}
+	}
+	if ext == nil {
+		kind, ok := w.Stubs[name]
+		if !ok {
+			if o := fn.Origin(); o != nil {
+				kind, ok = w.Stubs[o.String()]
+			}
+		}
+		if ok {
+			switch kind {
+			case "noop", "zero":
+				results := fn.Signature.Results()
+				ext = func(fr *frame, args []value) value {
+					if results.Len() == 0 {
+						return nil
+					}
+					return zero(results)
+				}
+			case "real":
+				ext = nil
+			default:
+				panic("unknown stub kind " + kind + " for " + name)
+			}
 		}
 	}
 	if ext == nil {
